@@ -96,6 +96,74 @@ fn collect_traces(rep: &mut Report) -> Vec<LockEvent> {
         }
         Err(e) => rep.machinery(format!("c11 universe: {}", e)),
     }
+    // (1b) handler entry points the scripts above do not reach: statistics ticks, stun peers,
+    // key list, batched transactions, a mined golden ticket, the genesis producer
+    if let Ok(u) = c11::universe() {
+        use saito_core::core::consensus::golden_ticket::GoldenTicket;
+        use saito_core::core::consensus_thread::ConsensusEvent;
+        use saito_core::core::io::network_event::NetworkEvent;
+        use saito_core::core::process::process_event::ProcessEvent;
+        use saito_core::core::verification_thread::VerifyRequest;
+        trace_start();
+        if let Ok(mut s) = c11::start(&u, false) {
+            let n = &mut s.n;
+            {
+                let r = &mut n.routing;
+                let _ = crate::exec::run(async { r.on_stat_interval(10_000_000).await });
+                let c = &mut n.consensus;
+                let _ = crate::exec::run(async { c.on_stat_interval(10_000_000).await });
+                let v = &mut n.verification;
+                let _ = crate::exec::run(async { v.on_stat_interval(10_000_000).await });
+            }
+            let _ = n.net(NetworkEvent::AddStunPeer { peer_index: 40, public_key: crate::seams::key(6).public });
+            let _ = n.net(NetworkEvent::RemoveStunPeer { peer_index: 40 });
+            {
+                let r = &mut n.routing;
+                let _ = crate::exec::run(async { r.set_my_key_list(vec![crate::seams::key(6).public]).await });
+            }
+            let mut q = std::collections::VecDeque::new();
+            q.push_back(u.honest_tx.clone());
+            n.q_verify.push_back(VerifyRequest::Transactions(q));
+            let _ = n.settle();
+            let tip = n.tip().1;
+            let gt = GoldenTicket::create(tip, [7; 32], n.key.public);
+            n.q_consensus.push_back(ConsensusEvent::NewGoldenTicket { golden_ticket: gt });
+            n.q_consensus.push_back(ConsensusEvent::NewTransactions { transactions: vec![u.honest_tx.clone()] });
+            let _ = n.settle();
+            let _ = n.tick_consensus(200_000);
+            let _ = n.settle();
+            let _ = n.tick_routing(6_000);
+        }
+        all.extend(trace_take());
+        rep.traces_validated += 1;
+        // a node that produces the genesis block itself
+        trace_start();
+        {
+            let cfg = crate::seams::Cfg::new(10, crate::factory::HEARTBEAT);
+            let mut n = crate::fullnode::FullNode::new(crate::seams::key(9), cfg, crate::seams::MemIO::new(), crate::seams::ManualClock::new(10_000_000));
+            n.consensus.produce_blocks_by_timer = true;
+            let _ = n.init();
+            let _ = n.tick_consensus(200_000);
+            let _ = n.settle();
+            let _ = n.tick_consensus(200_000);
+        }
+        all.extend(trace_take());
+        rep.traces_validated += 1;
+    }
+    // (1c) growth past the purge horizon, a reorganisation, then a restart from disk
+    if let Ok(tw) = crate::props::c03::build_tree(3, 8, &[0, 0, 2], None) {
+        trace_start();
+        let w = &tw.w;
+        let io = crate::seams::MemIO::new();
+        let mut n = crate::fullnode::FullNode::new(crate::seams::key(9), crate::props::c12::node_cfg(w), io.clone(), crate::seams::ManualClock::new(5_000_000));
+        let _ = n.init();
+        for &wi in tw.stem.iter().chain(tw.tb.iter()) {
+            let _ = crate::props::c12::deliver(&mut n, &w.blocks[wi].bytes);
+        }
+        let _ = crate::props::c12::restart(w, io.files(), true);
+        all.extend(trace_take());
+        rep.traces_validated += 1;
+    }
     // (2) two-node synchronisation in the default order
     match c15::Forest::build(14) {
         Ok(f) => {
@@ -361,6 +429,13 @@ pub fn main(tier: Tier, _replay: Option<String>) -> i32 {
         }
     }
     rep.outcome_n("binding:sites-executed", dyn_sites.len() as u64);
+    let not_executed: Vec<String> = sites
+        .iter()
+        .filter(|s| s["file"].as_str().map(|f| f.starts_with("saito-core")).unwrap_or(false))
+        .filter(|s| !dyn_sites.contains(&(s["file"].as_str().unwrap_or("").to_string(), s["line"].as_u64().unwrap_or(0) as u32)))
+        .map(|s| format!("{}:{} {}", s["file"].as_str().unwrap_or(""), s["line"], s["fn"].as_str().unwrap_or("")))
+        .collect();
+    rep.extra.insert("saito_core_sites_not_executed_by_the_binding_worlds".into(), json!(not_executed));
     rep.extra.insert("sites_executed_of_extracted".into(), json!(format!("{} of {}", dyn_sites.len(), sites.iter().filter(|s| s["file"].as_str().map(|f| f.starts_with("saito-core")).unwrap_or(false)).count())));
     if !gaps.is_empty() {
         gaps.sort();
